@@ -210,6 +210,8 @@ func runC18A(r *simrt.Run, tier Tier) Outcome {
 	// of a non-member, Contains), so that Merge(source) keeps one meaning for
 	// the model of the destination; what is checked on the source is that every
 	// access to its base happens under its own lock, and the results.
+	// a store merged into itself is handed over as a value or as a pointer
+	selfByPointer := r.Bool("c18.selfmerge.pointer")
 	concSrc := r.Bool("c18.concsrc")
 	var mergeSrc factstore.ReadOnlyFactStore = other
 	var srcStore factstore.ConcurrentFactStore
@@ -345,7 +347,11 @@ func runC18A(r *simrt.Run, tier Tier) Outcome {
 				case 4:
 					if op.Atom == 1 {
 						in.Mask = 0
-						store.Merge(store)
+						if selfByPointer {
+							store.Merge(&store)
+						} else {
+							store.Merge(store)
+						}
 					} else {
 						in.Mask = mergeMask
 						store.Merge(mergeSrc)
